@@ -4,7 +4,7 @@
    the rest are about the exact instance E = ExactArith qsqrt (option Q, None = NaN). *)
 Require Import Base.Prelude.
 From Coq Require Import QArith Lqa PrimFloat SpecFloat.
-Require Import C08.Arith C08.Model C08.Proofs C08.ProofsExact.
+Require Import C08.Arith C08.Model C08.Proofs C08.ProofsExact C08.ProofsTurn.
 Close Scope Q_scope.
 Open Scope Z_scope.
 
@@ -177,6 +177,77 @@ Theorem C08_hillshade_range : forall (qsqrt qatanS qsinS qcosS qsinD qcosD : Q -
 Proof. intros qsqrt qatanS qsinS qcosS qsinD qcosD qatan2S H1 H2 H3 pi az alt W. apply hillshade_range; assumption. Qed.
 Print Assumptions C08_hillshade_range.
 
+(* quarter turn of the ASPECT through the code's compass conversion (exact instance). atan2 is abstract; premises:
+   it respects ==, atan2*RADIAN lies in [-180,180], and turning the vector (x, y) to (-y, x) adds 90 degrees mod 360.
+   Then the aspect of the turned window (np.rot90, counter-clockwise) is the aspect minus 90 modulo 360:
+   q' = q - 90 (q >= 90) or q + 270; a flat window keeps -1 *)
+Theorem C08_aspect_quarter_turn : forall (qsqrt : Q -> Q) (qatan2 : Q -> Q -> Q) radian,
+  (forall y y' x x', y == y' -> x == x' -> qatan2 y x == qatan2 y' x') ->
+  (forall y x, -180 <= qatan2 y x * radian <= 180) ->
+  (forall y x, ~ (x == 0 /\ y == 0) ->
+     qatan2 x (- y) * radian == qatan2 y x * radian + 90 \/ qatan2 x (- y) * radian == qatan2 y x * radian - 270) ->
+  forall (W : Win Q),
+  exists q q',
+    aspect_cell (ExactArith qsqrt) (fun y x => olift2 qatan2 y x) (Some radian) (wq W) = Some q /\
+    aspect_cell (ExactArith qsqrt) (fun y x => olift2 qatan2 y x) (Some radian) (wq (wrot W)) = Some q' /\
+    ((q == -1 /\ q' == -1) \/
+     (0 <= q <= 360 /\ 0 <= q' <= 360 /\ (q' == q - 90 \/ q' == q + 270))).
+Proof. intros qsqrt qatan2 radian H1 H2 H3 W. apply aspect_quarter_turn; assumption. Qed.
+Print Assumptions C08_aspect_quarter_turn.
+
+(* np.rot90 of a whole raster, every size, every arithmetic instance and kernel: an interior cell (i, j) of the turned
+   raster is the interior cell (j, cols-1-i) of the original and the kernel sees exactly the turned 3x3 window there *)
+Theorem C08_rot90_positions : forall (A : Arith) atanD atan2D k57 radian cx cy (g g' : list (list (T32 A))) i j,
+  is_rot90 (snan A) g g' -> (1 <= i < nrows g' - 1)%Z -> (1 <= j < ncols g' - 1)%Z ->
+  let y := j in let x := (ncols g - 1 - i)%Z in
+  let W := win_at (snan A) g y x in
+  (1 <= y < nrows g - 1 /\ 1 <= x < ncols g - 1)%Z /\
+  get (snan A) (slope_raster A atanD k57 cx cy g') i j = slope_cell A atanD k57 cx cy (wrotT W) /\
+  get (snan A) (slope_raster A atanD k57 cx cy g) y x = slope_cell A atanD k57 cx cy W /\
+  get (snan A) (aspect_raster A atan2D radian g') i j = aspect_cell A atan2D radian (wrotT W) /\
+  get (snan A) (aspect_raster A atan2D radian g) y x = aspect_cell A atan2D radian W /\
+  get (snan A) (curvature_raster A cx cy g') i j = curvature_cell A (curv_cellsize A cx cy) (wrotT W) /\
+  get (snan A) (curvature_raster A cx cy g) y x = curvature_cell A (curv_cellsize A cx cy) W /\
+  (forall h : list (list (T32 A)), (0 < ncols h)%Z -> is_rot90 (snan A) h (rot90 (snan A) h)).
+Proof.
+  intros A atanD atan2D k57 radian cx cy g g' i j Hrot Hi Hj y x W.
+  destruct (stencil_rot (snan A) (snan A) (slope_cell A atanD k57 cx cy) g g' i j Hrot Hi Hj) as (Hin & S' & S).
+  destruct (stencil_rot (snan A) (snan A) (aspect_cell A atan2D radian) g g' i j Hrot Hi Hj) as (_ & A' & A0).
+  destruct (stencil_rot (snan A) (snan A) (curvature_cell A (curv_cellsize A cx cy)) g g' i j Hrot Hi Hj) as (_ & C' & C0).
+  split; [exact Hin|]. split; [exact S'|]. split; [exact S|]. split; [exact A'|]. split; [exact A0|].
+  split; [exact C'|]. split; [exact C0|]. intros h Hh. apply rot90_is_rot90; exact Hh.
+Qed.
+Print Assumptions C08_rot90_positions.
+
+(* the property's sentence for a whole raster (exact instance, square cells c x c, any size): at every interior cell of
+   np.rot90(g) whose window is finite, slope and curvature are the original cell's values (they "turn with the raster")
+   and the aspect is the original's minus 90 degrees modulo 360 (flat stays -1) *)
+Theorem C08_rot90_raster : forall (qsqrt qatan : Q -> Q) (qatan2 : Q -> Q -> Q) k57 radian,
+  (forall x x', x == x' -> qsqrt x == qsqrt x') -> (forall x x', x == x' -> qatan x == qatan x') ->
+  (forall y y' x x', y == y' -> x == x' -> qatan2 y x == qatan2 y' x') ->
+  (forall y x, -180 <= qatan2 y x * radian <= 180) ->
+  (forall y x, ~ (x == 0 /\ y == 0) ->
+     qatan2 x (- y) * radian == qatan2 y x * radian + 90 \/ qatan2 x (- y) * radian == qatan2 y x * radian - 270) ->
+  forall c (g g' : list (list oq)) i j W,
+  let E := ExactArith qsqrt in
+  ~ c == 0 -> is_rot90 None g g' -> (1 <= i < nrows g' - 1)%Z -> (1 <= j < ncols g' - 1)%Z ->
+  let y := j in let x := (ncols g - 1 - i)%Z in
+  win_at None g y x = wq W ->
+  (1 <= y < nrows g - 1 /\ 1 <= x < ncols g - 1)%Z /\
+  (exists q q', get None (slope_raster E (olift1 qatan) (Some k57) (Some c) (Some c) g) y x = Some q /\
+                get None (slope_raster E (olift1 qatan) (Some k57) (Some c) (Some c) g') i j = Some q' /\ q' == q) /\
+  (exists q q', get None (curvature_raster E (Some c) (Some c) g) y x = Some q /\
+                get None (curvature_raster E (Some c) (Some c) g') i j = Some q' /\ q' == q) /\
+  (exists q q', get None (aspect_raster E (fun y x => olift2 qatan2 y x) (Some radian) g) y x = Some q /\
+                get None (aspect_raster E (fun y x => olift2 qatan2 y x) (Some radian) g') i j = Some q' /\
+                ((q == -1 /\ q' == -1) \/
+                 (0 <= q <= 360 /\ 0 <= q' <= 360 /\ (q' == q - 90 \/ q' == q + 270)))).
+Proof.
+  intros qsqrt qatan qatan2 k57 radian H1 H2 H3 H4 H5 c g g' i j W E Hc Hrot Hi Hj y x HW.
+  apply (rot90_raster qsqrt qatan qatan2 k57 radian H1 H2 H3 H4 H5 c g g' i j W Hc Hrot Hi Hj HW).
+Qed.
+Print Assumptions C08_rot90_raster.
+
 (* ---------------- non-vacuity and concrete evaluations ---------------- *)
 Definition z0 (x : Q) : Q := 0.
 Definition one (x : Q) : Q := 1.
@@ -207,4 +278,21 @@ Example C08_float_examples :
   f_curvature (FPair 1%float 1%float) [] [] [[CI 0; CI 0; CI 0]; [CI 0; CI 1; CI 0]; [CI 0; CI 0; CI 0]]
     = [[nan; nan; nan]; [nan; 400%float; nan]; [nan; nan; nan]] /\
   f_hillshade (fun x => x) (fun x => x) (fun x => x) (fun y x => y) 3%float 225%float 25%float [[CI 1]] = None.
+Proof. repeat split; vm_compute; reflexivity. Qed.
+
+(* the premises of the quarter-turn theorems are satisfiable: the quadrant's base angle (0, 90, 180, -90) with RADIAN = 1
+   respects ==, stays in [-180,180] and gains 90 degrees mod 360 under a quarter turn of the vector *)
+Example C08_quarter_premises_satisfiable :
+  (forall y y' x x', y == y' -> x == x' -> quad_angle y x == quad_angle y' x') /\
+  (forall y x, -180 <= quad_angle y x * 1 <= 180) /\
+  (forall y x, ~ (x == 0 /\ y == 0) ->
+     quad_angle x (- y) * 1 == quad_angle y x * 1 + 90 \/ quad_angle x (- y) * 1 == quad_angle y x * 1 - 270).
+Proof. exact quad_angle_premises. Qed.
+
+(* a concrete turn: the ramp rising to the east faces west (270 with the coarse quad_angle: atan2(0, -1) -> 180 -> 450-180);
+   turned counter-clockwise it rises to the north and faces south: 180 = 270 - 90.  And rot90 of a 2x3 raster *)
+Example C08_turn_examples :
+  aspect_cell (ExactArith z0) (fun y x => olift2 quad_angle y x) (Some 1) (wq ramp) = Some (360 - 180 + 90) /\
+  aspect_cell (ExactArith z0) (fun y x => olift2 quad_angle y x) (Some 1) (wq (wrot ramp)) = Some (90 - -90) /\
+  rot90 0%Z [[1; 2; 3]; [4; 5; 6]]%Z = [[3; 6]; [2; 5]; [1; 4]]%Z.
 Proof. repeat split; vm_compute; reflexivity. Qed.
